@@ -60,6 +60,44 @@ Fixpoint dedup (seen l : list nat) : list nat :=
   | x :: l' => if memb x seen then dedup seen l' else x :: dedup (x :: seen) l'
   end.
 
+(* ---- the calls at the level of the code, and what they do to the objects ---------------- *)
+Inductive ev :=
+| ESet (obj : nat) (k : str) (v : ovalue)     (* setattr(obj, k, v) *)
+| EPost (obj : nat)                            (* obj.__post_init__() *)
+| EExec (obj : nat)                            (* execute() of a lightweight task *)
+| EBody (obj : nat).                           (* execute() of the task *)
+
+(* the attributes of an object: a dict (assigning an existing name replaces its value in place) *)
+Fixpoint set_attr (attrs : list (str * ovalue)) (k : str) (v : ovalue) : list (str * ovalue) :=
+  match attrs with
+  | [] => [(k, v)]
+  | kv :: a => if str_eqb k (fst kv) then (k, v) :: a else kv :: set_attr a k v
+  end.
+
+(* the memory: object -> attributes *)
+Definition mem := list (nat * list (str * ovalue)).
+Fixpoint mem_get (m : mem) (n : nat) : list (str * ovalue) :=
+  match m with
+  | [] => []
+  | (n', a) :: m' => if Nat.eqb n n' then a else mem_get m' n
+  end.
+Fixpoint mem_set (m : mem) (n : nat) (k : str) (v : ovalue) : mem :=
+  match m with
+  | [] => [(n, [(k, v)])]
+  | (n', a) :: m' => if Nat.eqb n n' then (n', set_attr a k v) :: m' else (n', a) :: mem_set m' n k v
+  end.
+
+(* running the calls: final memory, and the log the harness classes write - __post_init__ records
+   the names of the attributes its object has at that moment                                    *)
+Fixpoint replay (l : list ev) (m : mem) : mem * list call :=
+  match l with
+  | [] => (m, [])
+  | ESet n k v :: l' => replay l' (mem_set m n k v)
+  | EPost n :: l' => let '(m', log) := replay l' m in (m', PostInit n (map fst (mem_get m n)) :: log)
+  | EExec n :: l' => let '(m', log) := replay l' m in (m', Execute n :: log)
+  | EBody n :: l' => let '(m', log) := replay l' m in (m', Body n :: log)
+  end.
+
 Definition empty_node : node :=
   {| cls := 0; fields := []; pre := []; init := []; task := None; sealed := false |}.
 
@@ -88,14 +126,34 @@ Section Inst.
   Definition gathered (evs : list (nat * list str)) : list nat :=
     dedup [] (flat_map (fun ev => pre (node_at (fst ev))) evs).
 
-  Definition instantiate (root : nat) : option result :=
+  (* what FromPython.postprocess does for configuration n, call by call (l.1646-1659):
+       for key, value in values.items(): setattr(stub, key, value)
+       stub.__post_init__()
+     post_first = true is the variant that calls __post_init__ before the copy               *)
+  Definition node_trace (post_first : bool) (n : nat) : list ev :=
+    let sets := map (fun kv => ESet n (fst kv) (image (snd kv))) (fields (node_at n)) in
+    if post_first then EPost n :: sets else sets ++ [EPost n].
+
+  (* the calls of one instance(): postprocess of every created configuration in walk order,
+     then the gathered pre-tasks                                                             *)
+  Definition inst_trace (post_first : bool) (evs : list (nat * list str)) : list ev :=
+    flat_map (fun ev => node_trace post_first (fst ev)) evs ++ map EExec (gathered evs).
+
+  (* the result is what an observer sees when these calls run: the attributes each object ends
+     up with, and at each __post_init__/execute the attributes the object has at that moment   *)
+  Definition instantiate_gen (post_first : bool) (root : nat) : option result :=
     match inst_events root with
     | None => None
     | Some evs =>
-        Some {| r_objects := map (fun ev => object_of (fst ev)) evs;
-                r_log := map (fun ev => post_init_of (fst ev)) evs ++ map Execute (gathered evs);
+        let '(m, log) := replay (inst_trace post_first evs) [] in
+        Some {| r_objects := map (fun ev => {| o_id := fst ev; o_attrs := mem_get m (fst ev) |}) evs;
+                r_log := log;
                 r_root := root |}
     end.
+
+  Definition instantiate : nat -> option result := instantiate_gen false.
+  (* __post_init__ before the attribute copy *)
+  Definition instantiate_post_first : nat -> option result := instantiate_gen true.
 
   (* ---- the parameter file: __get_objects__ -------------------------------------- *)
   (* sub-objects of the values, then the task, then pre-tasks, then init tasks, then
